@@ -42,7 +42,9 @@ class C20(Prop):
             'pending edits; virtual port ids that have a slave device\'s name as a proper prefix; a hub limit of 6 virtual '
             'ports with source + target together above it), backup = GET x3 on the source, restore = PUT x3 on the differently '
             'configured target, then the same restore a second time; non-virtual writable ports (relay, dimmer) whose enabled '
-            'flag, value and attributes differ between source and target; then corrupted documents for PUT /ports, PUT /devices '
+            'flag, value and attributes differ between source and target, with expressions between them in opposite directions '
+            '(2-cycles, chains), diamonds among virtual ports entered dependent-first, a sequence running on a target port; a '
+            'full-update event must follow an accepted PUT /ports; then corrupted documents for PUT /ports, PUT /devices '
             '(k-th entry: missing host/port/scheme, wrong types) and PUT /device, each followed by the polling/event probe; one '
             'corrupted document (wrong attribute type / unparsable expression / bad definition in the k-th entry); '
             'non-trivial: source and target differ in >= 1 port set member and >= 1 attribute and the source has an '
@@ -109,6 +111,20 @@ class C20(Prop):
                    ['patch', 'lp1', {'enabled': True}], ['val', 'lp1', 12]],
              'B': [['val', 'lp3', False], ['val', 'lp4', 0], ['patch', 'lp3', {'enabled': False}],
                    ['patch', 'lp4', {'enabled': False, 'gain': 1}], ['val', 'lp1', 5]]},
+            # stale target expressions: opposite-direction references between the same non-virtual ports
+            {'canon': [['e', '$lp4', '$lp4'], ['e', '$lp1', '$lp1']], 'xf': [], 'corrupt': ['none', 0],
+             'A': [['patch', 'lp1', {'expression': '$lp4'}]],
+             'B': [['patch', 'lp1', {'expression': ''}], ['patch', 'lp4', {'expression': '$lp1'}]]},
+            {'canon': [['e', x, x] for x in ('$lp3', '$lp4', '$lp1')], 'xf': [], 'corrupt': ['none', 0],
+             'A': [['patch', 'lp1', {'expression': '$lp3'}], ['patch', 'lp3', {'expression': '$lp4'}]],
+             'B': [['patch', 'lp1', {'expression': ''}], ['patch', 'lp3', {'expression': ''}],
+                   ['patch', 'lp4', {'expression': '$lp3'}], ['patch', 'lp3', {'expression': '$lp1'}]]},
+            # a diamond entered dependent-first; a sequence running on a target port
+            {'canon': [['e', 'ADD($v1, $v2)', 'ADD($v1, $v2)'], ['e', '$v1', '$v1']], 'xf': [], 'corrupt': ['none', 0],
+             'A': [['add', {'id': i, 'type': 'number'}] for i in ('v1', 'v2', 'v3')] +
+                  [['patch', 'v3', {'expression': 'ADD($v1, $v2)'}], ['patch', 'v2', {'expression': '$v1'}],
+                   ['patch', 'lp4', {'enabled': True}], ['val', 'lp4', 40]],
+             'B': [['seq', 'lp4', {'values': [3, 9], 'delays': [400, 400], 'repeat': 0}]]},
             # corrupted PUT /devices and PUT /device documents with slaves present
             {'canon': [], 'xf': [], 'corrupt': ['type', 0], 'corrupt_devices': ['nohost', 1], 'corrupt_device': 'type',
              'A': [['sput', [g._slave_doc('slv1', 1, {'name': 'slv1', 'flags': 'f'}),
@@ -154,7 +170,39 @@ class C20(Prop):
                                       'tag': rng.choice(['', 'b'])}], ['val', pid, vb]]
                 if not eb:
                     B.append(['patch', pid, {'enabled': False}])
-        return {'canon': full['canon'], 'xf': full['xf'], 'A': A, 'B': B,
+        canon = full['canon']
+        # expressions between the non-virtual ports, in opposite directions on source and target (2-cycles and chains)
+        if rng.random() < 0.4:
+            a, b, c = rng.sample(sorted(WRITABLE_STATIC), 3)
+            if rng.random() < 0.5:
+                ea, eb = [(a, f'${b}')], [(b, f'${a}')]
+            else:
+                ea, eb = [(a, f'${b}'), (b, f'ADD(${c}, 1)')], [(c, f'${b}'), (b, f'MUL(${a}, 2)')]
+            for pid in (a, b, c):
+                A.append(['patch', pid, {'expression': ''}])
+            for pid, e in ea:
+                A.append(['patch', pid, {'expression': e}])
+                canon.append(['e', e, e])
+            for pid in (a, b, c):
+                B.append(['patch', pid, {'expression': ''}])
+            for pid, e in eb:
+                B.append(['patch', pid, {'expression': e}])
+                canon.append(['e', e, e])
+        # a diamond among virtual ports, entered dependent-first (the dependent port sorts last in the document)
+        if rng.random() < 0.25:
+            x, y, z = sorted(rng.sample(vids or c07mod.VIDS, 3))
+            e1, e2 = f'ADD(${x}, ${y})', f'${x}'
+            A += [['add', {'id': i, 'type': 'number'}] for i in (x, y, z)]
+            A += [['patch', x, {'expression': ''}], ['patch', y, {'expression': ''}],
+                  ['patch', z, {'expression': e1}], ['patch', y, {'expression': e2}]]
+            canon += [['e', e1, e1], ['e', e2, e2]]
+        # a sequence running on a non-virtual port of the target
+        if rng.random() < 0.3:
+            pid = rng.choice(sorted(WRITABLE_STATIC))
+            vals = [True, False] if WRITABLE_STATIC[pid] == 'boolean' else [3, 9]
+            B += [['patch', pid, {'enabled': True, 'expression': ''}],
+                  ['seq', pid, {'values': vals, 'delays': [400, 400], 'repeat': 0}]]
+        return {'canon': canon, 'xf': full['xf'], 'A': A, 'B': B,
                 'corrupt': [rng.choice(['type', 'expr', 'def', 'none']), rng.randrange(6)],
                 'corrupt_devices': [rng.choice(['nohost', 'noport', 'noscheme', 'porttype', 'scheme', 'pathtype', 'none']),
                                     rng.randrange(4)],
@@ -212,13 +260,26 @@ class C20(Prop):
         from qtoggleserver.slaves.api.funcs import devices as f_devices
         h = self.b.FakeHandler(method='PUT')
         res = []
+        self.put_err_id = None
+        self.full_update = None
         for fn, key in ((f_device.put_device, 'device'), (f_devices.put_slave_devices, 'devices'), (f_ports.put_ports, 'ports')):
+            for _ in range(6):                 # let the events of the previous call reach the handler
+                await asyncio.sleep(0)
+            self.events.clear()
             try:
                 await fn(h, copy.deepcopy(docs[key]))
                 res.append('ok')
+                if key == 'ports':
+                    for _ in range(5):
+                        await asyncio.sleep(0)
+                    self.full_update = 'full-update' in self.events
             except Exception as e:
                 res.append(self.b._err(e))
+                if key == 'ports':
+                    self.put_err_id = getattr(e, 'params', {}).get('id')
         await self.b._settle(4)
+        await asyncio.sleep(2)          # a sequence left running on a restored port would show by now
+        await self.b._settle(2)
         return res
 
     async def _real(self, case):
@@ -239,6 +300,7 @@ class C20(Prop):
             for s in d.get('devices', []):
                 s.pop('webhooks', None)          # added by the harness dump, not part of GET /devices
         out['put'] = await self._put_all(out['a'])
+        out['put_err_id'], out['full_update'] = self.put_err_id, self.full_update
         out['c'] = await self.b._dump()
         out['c_vals'] = self.b._vals()
         # a second restore of the same backup on the (now equal) hub must be accepted and change nothing
@@ -367,6 +429,9 @@ class C20(Prop):
         after = self._canon(out['c'], None, xf_ok)
         if out['put'] != ['ok', 'ok', 'ok']:
             fail = Failure('property', f'restore of the hub\'s own backup documents was refused: {out["put"]}', real=out['put'])
+        if fail is None and out['full_update'] is False:
+            fail = Failure('property', 'an accepted PUT /ports was not followed by a full-update event to the registered '
+                           'event handlers (event delivery still off when it was triggered?)')
         # passwords are not part of a backup
         for d in (src, after):
             for k in ('admin_password', 'normal_password', 'viewonly_password'):
@@ -438,14 +503,25 @@ class C20(Prop):
                 sv = enc(srcp[pid].get('value'))
                 if tv is None or sv is None:
                     continue
-                driver.ask(f'static {pid} {"e" if tgtp[pid].get("enabled") else "d"} {tv}')
-                ents.append(f'{pid}/n/d/enabled:{"g" if srcp[pid].get("enabled") else "f"}/{sv}')
+                def cx(e):
+                    e = self.canon_map.get(('e', e)) or e
+                    return e
+                te = cx(tgtp[pid].get('expression') or '')
+                se = cx(srcp[pid].get('expression') or '')
+                driver.ask(f'static {pid} {"e" if tgtp[pid].get("enabled") else "d"} {tv} {te.encode().hex() or "-"}')
+                ents.append(f'{pid}/n/d/enabled:{"g" if srcp[pid].get("enabled") else "f"},expression:={se.encode().hex()}/{sv}')
                 if srcp[pid].get('enabled') and not srcp[pid].get('expression') and xf_ok(srcp[pid]):
                     cmp_ids.append(pid)
             if ents:
                 rep = driver.ask('put ' + ' '.join(ents))
+                # the (repaired) model accepts the non-virtual part of every backup taken from an acyclic source
+                mhead = rep.split(' ')[0]
+                static_refused = out['put'][2] != 'ok' and out['put_err_id'] in WRITABLE_STATIC
+                if (mhead != 'ok') != static_refused:
+                    fail = Failure('correspondence', f'restore of the non-virtual ports: hub {out["put"][2]} '
+                                   f'(entry {out["put_err_id"]}), model {rep}', real=out['put'][2], model=rep)
                 mvals = dict(x.split('=', 1) for x in rep.rsplit('vals=', 1)[1].split(',') if x)
-                for pid in cmp_ids:
+                for pid in (cmp_ids if fail is None else []):
                     rv = enc(out['c_vals'].get(pid))
                     if mvals.get(pid) != rv:
                         tags.add('static-value-restored')
